@@ -519,7 +519,13 @@ class Path(Expression):
 
     def __str__(self) -> str:
         it = iter(self.path)
-        buf = [str(next(it))]
+        root = next(it)
+        if isinstance(root, str) and RE_PROPERTY.fullmatch(root):
+            buf = [root]
+        elif isinstance(root, Path):
+            buf = [f"[{root}]"]
+        else:
+            buf = [f"[{root!r}]"]
         for segment in it:
             if isinstance(segment, Path):
                 buf.append(f"[{segment}]")
